@@ -462,5 +462,28 @@ func genKVCases(r *vh.Rand, tier string, n int) []string {
 			out = append(out, fmt.Sprintf("k%d.%s kv %s all x | %s", i, kind, kind, body))
 		}
 	}
+	out = append(out, bigSaveCases("kv plain all x")...)
 	return out
+}
+
+// bigSaveOps: one SaveRaftState call whose write batch holds more than 2048
+// records: replica 0 brings 2060 small entries, replica 1 (listed after it) a
+// new term, a commit index and the entries that commit index refers to. A save
+// that is committed in pieces shows up as a second CommitWriteBatch call in the
+// KV trace, and a fault between the pieces leaves replica 1 with the new hard
+// state but without its entries.
+func bigSaveOps() []op {
+	u0 := update{N: 0, I0: 1, St: hstate{Term: 1, Vote: 1, Commit: 0}}
+	for i := 0; i < 2060; i++ {
+		u0.Ents = append(u0.Ents, ent{Index: uint64(1 + i), Term: 1, Tag: uint64(1000 + i), Len: 8})
+	}
+	first := update{N: 1, I0: 1, St: hstate{Term: 1, Vote: 1, Commit: 0},
+		Ents: []ent{{Index: 1, Term: 1, Tag: 1, Len: 8}, {Index: 2, Term: 1, Tag: 2, Len: 8}}}
+	u1 := update{N: 1, I0: 3, St: hstate{Term: 2, Vote: 1, Commit: 5},
+		Ents: []ent{{Index: 3, Term: 2, Tag: 3, Len: 8}, {Index: 4, Term: 2, Tag: 4, Len: 8}, {Index: 5, Term: 2, Tag: 5, Len: 8}}}
+	return []op{{Kind: "SAVE", Ups: []update{first}}, {Kind: "SAVE", Ups: []update{u0, u1}}}
+}
+
+func bigSaveCases(head string) []string {
+	return []string{fmt.Sprintf("kbig %s | %s", head, opsText(bigSaveOps()))}
 }
